@@ -22,7 +22,7 @@ pub static DEF: CheckDef = CheckDef {
     id: "C09",
     level: "exploration",
     technique: "deterministic component simulation: seeded presentation histories against the real SignatureCache, verdict-equality oracle vs direct verification and a by-construction validity model",
-    runs: (400, 20000),
+    runs: (1500, 60000),
     generate,
     execute,
     shrink,
@@ -72,9 +72,13 @@ fn generate(seed: u64, tier: Tier) -> Value {
             json!({"kind": "flip_key", "base": base, "pos": r.below(1952), "bit": r.below(8)})
         } else if k < 74 {
             json!({"kind": "forger_signed", "base": base, "forger": r.below(forgers)})
-        } else if k < 80 {
+        } else if k < 79 {
             json!({"kind": "forger_own_id", "base": base, "forger": r.below(forgers)})
-        } else if k < 92 {
+        } else if k < 84 {
+            // byte-level change of the user id, then re-signed by the key's owner: the
+            // signature is genuine, only the id no longer derives from the embedded key
+            json!({"kind": "id_byte_resigned", "base": base, "pos": r.below(32), "bit": r.below(8)})
+        } else if k < 93 {
             json!({"kind": "collide", "base": base, "what": *r.pick(&["name", "endpoints", "ttl", "both"])})
         } else {
             json!({"kind": "resigned_collide", "base": base, "what": *r.pick(&["name", "endpoints"])})
@@ -244,6 +248,14 @@ fn execute(sc: &Value) -> RunReport {
                 rec.user_id = f.id.clone();
                 rec.sign(&f.sk).expect("sign");
                 expected_valid = true;
+            }
+            "id_byte_resigned" => {
+                let pos = (st["pos"].as_u64().unwrap_or(0) as usize) % 32;
+                rec.user_id.hash[pos] ^= 1 << (st["bit"].as_u64().unwrap_or(0) % 8);
+                let owner = idents.iter().find(|i| i.id == base.user_id).unwrap();
+                rec.sign(&owner.sk).expect("sign");
+                sub = format!("byte{}", if pos < 8 { "0-7" } else { "8-31" });
+                expected_valid = false;
             }
             "collide" | "resigned_collide" => {
                 // same (user id, sequence, timestamp), different content
